@@ -60,6 +60,8 @@ type socket struct {
 	flushMu      sync.Mutex
 	flushPending atomic.Bool
 	bufMu        sync.Mutex
+	// set by a graceful Close that found packets in the write buffer
+	closeWhenFlushed atomic.Bool
 }
 
 func (s *socket) Protocol() int {
@@ -595,6 +597,11 @@ func (s *socket) doFlush() {
 			s.server.Emit("drain", s)
 		}
 	}
+	// graceful close: every buffered packet has been handed to the transport
+	if s.closeWhenFlushed.Load() && s.writeBuffer.Len() == 0 && s.closeWhenFlushed.CompareAndSwap(true, false) {
+		socket_log.Debug("all packets have been sent, closing the transport")
+		s.closeTransport(false)
+	}
 }
 
 // Get available upgrades for this socket.
@@ -629,22 +636,15 @@ func (s *socket) Close(discard bool) {
 	}
 
 	if length := s.writeBuffer.Len(); length > 0 {
-		socket_log.Debug("there are %d remaining packets in the buffer, waiting for the 'drain' event", length)
+		socket_log.Debug("there are %d remaining packets in the buffer, closing the transport once they are flushed", length)
 		if verifhook.Enabled {
 			verifhook.Point("socket.Close.beforeDrainWait", s)
 		}
-		var onDrain events.Listener
-		onDrain = func(...any) {
-			// the drain of a flush that was already under way says nothing about packets
-			// buffered after it took its batch: wait until the buffer is really empty
-			if s.writeBuffer.Len() > 0 {
-				s.Once("drain", onDrain)
-				return
-			}
-			socket_log.Debug("all packets have been sent, closing the transport")
-			s.closeTransport(discard)
-		}
-		s.Once("drain", onDrain)
+		// not a subscription to 'drain': by the time a listener is registered the buffer may
+		// already have been flushed and drained, and no further drain would follow. The flush
+		// that finds the buffer empty closes the transport (see doFlush).
+		s.closeWhenFlushed.Store(true)
+		s.flush()
 		return
 	}
 
